@@ -73,7 +73,7 @@ PROPS = {
     },
     'C09': {
         'units': ['encode', 'layout', 'decode', 'builder', 'bytesio'],
-        'kani': ['read_le','unpack_le','to_le_bytes_spec','pack_roundtrip','common_tables','index_table_loop'],
+        'kani': ['read_le','unpack_le','to_le_bytes_spec','pack_roundtrip','common_tables','index_table_loop','common_tables_pinned'],
         'own': {'builder': r'Builder::(compile|compile_from|new_type|new|into_inner|insert_output)$'},
         'level_text': 'Proof: encoder and decoder are verified against one forward-layout specification written from the format description '
                       '(header 3 + type; the three node forms; state byte; sizes nibbles; reverse transition order; index iff more than 32 '
@@ -227,7 +227,7 @@ PROPS = {
     },
     'C10': {
         'units': ['open', 'decode'],
-        'kani': ['read_le','unpack_le','common_tables','find_input_scan'],
+        'kani': ['read_le','unpack_le','common_tables','find_input_scan','common_tables_pinned'],
         'own': {'open': r'Fst::(new|verify|as_ref|map_data|into_inner|as_inner)|u64_to_usize|From|::from$|map_data'},  # decode: every obligation (the decoder is version-parametric)
         'level_text': 'Proof: Fst::new is verified generically over D: AsRef<[u8]> against per-version footer offsets written from '
                       'the format description: versions 1-3 with at least 32/36 bytes open with the footer fields at the '
